@@ -4,7 +4,6 @@
 package expand
 
 import (
-	"cmp"
 	"runtime"
 	"slices"
 	"strconv"
@@ -245,19 +244,10 @@ func listEnviron_(caseInsensitive bool, pairs ...string) Environ {
 	list := slices.Clone(pairs)
 	env := listEnviron{caseInsensitive: caseInsensitive}
 	slices.SortStableFunc(list, func(a, b string) int {
-		isep := strings.IndexByte(a, '=')
-		jsep := strings.IndexByte(b, '=')
-		if isep < 0 {
-			isep = 0
-		} else {
-			isep += 1
-		}
-		if jsep < 0 {
-			jsep = 0
-		} else {
-			jsep += 1
-		}
-		return env.compare(a[:isep], b[:jsep])
+		// Sort by name only; comparing "name=" prefixes would put "A.=" before "A=".
+		aname, _, _ := strings.Cut(a, "=")
+		bname, _, _ := strings.Cut(b, "=")
+		return env.compare(aname, bname)
 	})
 
 	last := ""
@@ -301,20 +291,10 @@ func (l listEnviron) Get(name string) Variable {
 		// Pairs are split at their first '=', so no variable name contains one.
 		return Variable{}
 	}
-	eqpos := len(name)
 	endpos := len(name) + 1
 	i, ok := slices.BinarySearchFunc(l.pairs, name, func(pair, name string) int {
-		if len(pair) < endpos {
-			// Too short; see if we are before or after the name.
-			return l.compare(pair, name)
-		}
-		// Compare the name prefix, then the equal character.
-		c := l.compare(pair[:eqpos], name)
-		eq := pair[eqpos]
-		if c == 0 {
-			return cmp.Compare(eq, '=')
-		}
-		return c
+		pname, _, _ := strings.Cut(pair, "=")
+		return l.compare(pname, name)
 	})
 	if ok {
 		return Variable{Set: true, Exported: true, Kind: String, Str: l.pairs[i][endpos:]}
